@@ -38,7 +38,7 @@ type mGen struct {
 	reqCall   int64
 	closeCall int64
 	plans     []mPlan
-	refused   bool // some child refuses this REQ
+	refused   bool    // some child refuses this REQ
 	prev      []*mGen // earlier REQs of the same session with the same subscription id
 
 	mu        sync.Mutex
